@@ -67,7 +67,7 @@ def write_if_changed(path, text):
 # Grammar features that a plain draw of 20 traits leaves out of a large share of the batches
 # (measured over 40 seeds: skip_func absent from 30, extern "C" methods from 27, vtbl_only from 21,
 # result aliases from 16): every batch is completed so that each occurs at least once.
-MUST_FEATURES = ["skip_func", "extern-c-method", "vtbl_only", "int_result-alias", "self-return", "ret:reschild", "int_result-unit-ok"]
+MUST_FEATURES = ["static-ref-return-consuming", "assoc-without-lifetime-bound-in-result", "skip_func", "extern-c-method", "vtbl_only", "int_result-alias", "self-return", "ret:reschild", "int_result-unit-ok"]
 
 
 def batch_traits(rng, seed, n_traits):
@@ -163,6 +163,14 @@ def make_batch(seed, n_traits, name, exclude=(), lite=()):
             if grng.random() < 0.45 or members[n_mand + oi][1].generic:
                 tn = members[n_mand + oi][1].name
                 aliases[oi] = (grng.choice(["Aa", "Zz", "Mm"]) + tn + "As")
+        own_order = sorted(range(nopt), key=lambda i: members[n_mand + i][1].name)
+        vis_order = sorted(range(nopt), key=lambda i: aliases.get(i, members[n_mand + i][1].name))
+        if nopt >= 2 and own_order == vis_order and k % 2 == 0:
+            # every other group with two or more optional members: make sure the alias order is
+            # NOT the order of the traits' own names (first by own name gets the last alias)
+            by_own = sorted(range(nopt), key=lambda i: members[n_mand + i][1].name)
+            aliases[by_own[0]] = "Zz" + members[n_mand + by_own[0]][1].name + "As"
+            aliases[by_own[-1]] = "Aa" + members[n_mand + by_own[-1]][1].name + "As"
         groups.append((f"g{k}", emit.Group(f"Gp{k}", members, n_mand, enabled, aliases)))
         if nopt >= 2:
             # the same group again with single-trait requests only
